@@ -15,8 +15,14 @@ HELPERS = {
     "max_keep": lambda c: di.max(c, drop_na=False), "mode": lambda c: di.mode(c), "mean": lambda c: di.mean(c), "median": lambda c: di.median(c),
     "quantile": lambda c: di.quantile(c, 0.25), "std": lambda c: di.std(c), "var": lambda c: di.var(c), "sum": lambda c: di.sum(c),
     "first_drop": lambda c: di.first(c, drop_na=True),
+    # the non-default setting of drop_na for every helper that has one (kernels are shared with the default: no extra compilation)
+    "count_unique_drop": lambda c: di.count_unique(c, drop_na=True), "quantile_keep": lambda c: di.quantile(c, 0.25, drop_na=False),
+    "mean_keep": lambda c: di.mean(c, drop_na=False), "median_keep": lambda c: di.median(c, drop_na=False),
+    "min_keep": lambda c: di.min(c, drop_na=False), "sum_keep": lambda c: di.sum(c, drop_na=False), "std_keep": lambda c: di.std(c, drop_na=False),
+    "var_keep": lambda c: di.var(c, drop_na=False), "mode_keep": lambda c: di.mode(c, drop_na=False), "last_drop": lambda c: di.last(c, drop_na=True),
+    "nth1_drop": lambda c: di.nth(c, 1, drop_na=True),
 }
-NUMERIC_ONLY = {"mean", "median", "quantile", "std", "var", "sum"}
+NUMERIC_ONLY = {"mean", "median", "quantile", "std", "var", "sum", "quantile_keep", "mean_keep", "median_keep", "sum_keep", "std_keep", "var_keep"}
 
 
 def frames():
